@@ -37,7 +37,7 @@ LEVEL_TEXT = ('Proof: Lean theorems about an executable model of mulgrid.write /
               'feet and re-read to metres (feet_roundtrip); right-justified names are inverse-safe (rjust_names_safe) and a left-justified one is not. '
               'PARTIAL: the layer-centre clause and the byte-for-byte second write carry the decidable hypothesis LayerCentresKept (KNOWN FINDING '
               'layer-centre-zero-recomputed: proved necessary by the model witnesses layer_centre_zero_lost / second_file_differs, replayed on the real code); '
-              'geo_write_fixpoint_partial also assumes SizesStable (the two 10.2e header sizes reprint identically: evaluated per geometry, not proved in general). '
+              'geo_write_fixpoint_partial assumes nothing else (rounding of every %f / %e field is proved idempotent). '
               'Tied to /repo on every run by the regenerated format table (table_is_current is re-evaluated) and by byte-for-byte write / canonical-dump read '
               'correspondence on generated and shipped geometries.')
 LEVEL_NOTE = ('Trusted: Lean kernel (+propext, Classical.choice, Quot.sound); hand-written Model/GeoFile.lean and Model/Fixed.lean (tied by correspondence); '
@@ -780,7 +780,7 @@ def run(ctx, only_oracle=False, n=None, seed_shift=0):
     hyp_wf = res.hyp.setdefault('WF g (hypothesis of geo_roundtrip and its corollaries)', [0, 0])
     hyp_lck = res.hyp.setdefault('LayerCentresKept g', [0, 0])
     hyp_st = res.hyp.setdefault('StableSurfaces g (hypothesis of names_lists_preserved)', [0, 0])
-    hyp_sz = res.hyp.setdefault('SizesStable g (hypothesis of geo_write_fixpoint_partial)', [0, 0])
+    hyp_sz = res.hyp.setdefault('SizesStable g (proved from WF: sizesStable_of_fits; evaluated as a cross-check)', [0, 0])
     if n is None: n = ctx.n(70, 1500)
     rcs = recipes(ctx, n) if not seed_shift else [gen_recipe(ctx.rng('search%d' % seed_shift), True, i) for i in range(n)]
     rng_mal = ctx.rng('malformed')
